@@ -39,7 +39,14 @@ func evilName(r *Rand, real []string, outer string) string {
 		}
 		return "x"
 	}
-	switch r.Intn(19) {
+	switch r.Intn(22) {
+	case 19:
+		// elements with a trailing or embedded '/'
+		return []string{"../", "./", "sub/", "../.", "..//", "/..", "sub/../..", ".././"}[r.Intn(8)]
+	case 20:
+		return pick() + "/"
+	case 21:
+		return strings.Repeat("../", r.Range(1, 3))
 	case 16:
 		// a sibling of the root whose name begins with the root's name
 		return strings.Repeat("../", r.Range(1, 4)) + "root.bak/canary.txt"
